@@ -15,7 +15,7 @@ import common as C
 import impl
 
 ID = "C13"
-PROP_FILES = ["Props/C13.v", "Props/R_container.v"]  # R_container: C13 on the image of the reference assembler
+PROP_FILES = ["Props/C13.v", "Props/R_container.v", "Props/R_bytes.v"]  # R_container: C13 on the image of the reference assembler
 RUN_FILES = ["Run/C13Run.v", "Run/C13Oracle.v"]
 RULE = ("file_formats[bin|raw|bk_wav|bk_turbo_wav] of the real code on: an image of every length 0-300 (all four containers), "
         "images summing to k*65535, k*65536 and neighbours (257 x 0xFF ...), seeded random images up to 4096 bytes, bases 0, 0o1000, "
